@@ -65,14 +65,18 @@ theorem regexEscape_literal (s : List Char) : unescape (reEscape s) = s ∧ lite
     obtain ⟨ih1, ih2⟩ := ih
     by_cases hs : isSpecial c = true
     · have hna := isSpecial_not_alnum c hs
-      simp [reEscape, hs, unescape, literalAtoms, ih1, ih2, hna]
+      have hre : reEscape (c :: cs) = '\\' :: c :: reEscape cs := by simp [reEscape, hs]
+      rw [hre]
+      simp [unescape, literalAtoms, ih1, ih2, hna]
     · have hne : c ≠ '\\' := by
         intro h; subst h; exact hs special_backslash
       have hnm : isMeta c = false := by
         cases hm : isMeta c with
         | false => rfl
         | true => exact absurd (isMeta_isSpecial c hm) hs
-      simp [reEscape, hs, unescape, literalAtoms, ih1, ih2, hne, hnm]
+      have hre : reEscape (c :: cs) = c :: reEscape cs := by simp [reEscape, hs]
+      rw [hre]
+      simp [unescape, literalAtoms, ih1, ih2, hne, hnm]
 
 /-- the library call is that function -/
 theorem regexEscape_call (s : String) (h : Heap) :
@@ -89,17 +93,24 @@ def hexVal (c : Char) : Option Nat :=
 /-- percent-decoding to bytes: `%XX` is the byte `XX`, any other character stands for its own code -/
 def percentDecode : List Char → List Nat
   | [] => []
-  | c :: cs =>
+  | c :: tl@(a :: b :: rest) =>
     if c = '%' then
-      match cs with
-      | a :: b :: rest =>
-        match hexVal a, hexVal b with
-        | some x, some y => (16 * x + y) :: percentDecode rest
-        | _, _ => c.toNat :: percentDecode cs
-      | _ => c.toNat :: percentDecode cs
-    else c.toNat :: percentDecode cs
+      match hexVal a, hexVal b with
+      | some x, some y => (16 * x + y) :: percentDecode rest
+      | _, _ => c.toNat :: percentDecode tl
+    else c.toNat :: percentDecode tl
+  | c :: tl => c.toNat :: percentDecode tl
 
-theorem hex_roundtrip : ∀ x ∈ List.range 16, hexVal (hexU x) = some x := by decide
+theorem percentDecode_cons_ne (c : Char) (cs : List Char) (hc : c ≠ '%') :
+    percentDecode (c :: cs) = c.toNat :: percentDecode cs := by
+  rcases cs with _ | ⟨a, _ | ⟨b, rest⟩⟩ <;> simp [percentDecode, hc]
+
+theorem toNat_ofNat_small (n : Nat) (h : n < 0xd800) : (Char.ofNat n).toNat = n := by
+  unfold Char.ofNat
+  have hv : n.isValidChar := Or.inl h
+  simp only [hv, dite_true]
+  unfold Char.ofNatAux Char.toNat
+  simp
 
 theorem char_lt (c : Char) : c.toNat < 0x110000 := by
   have h := c.valid
@@ -120,20 +131,40 @@ theorem utf8_lt (c : Char) : ∀ b ∈ utf8 c, b < 256 := by
       · simp at hb; omega
       · simp at hb; omega
 
-/-- a `safe` set is decodable if it contains only ASCII codes whose character is itself and is not `%` -/
-def SafeOK (safe : List Nat) : Prop := ∀ b ∈ safe, (Char.ofNat b).toNat = b ∧ Char.ofNat b ≠ '%'
+/-- a `safe` set is decodable if it contains only ASCII codes other than `%` -/
+def SafeOK (safe : List Nat) : Prop := ∀ b ∈ safe, b < 128 ∧ b ≠ 37
 
 theorem safeOK_urlEncode : SafeOK (safeBytes "':/&+") := by unfold SafeOK; decide
 theorem safeOK_urlEncodeComponent : SafeOK (safeBytes "'") := by unfold SafeOK; decide
+
+theorem hexU_lt (x : Nat) (hx : x < 16) : hexU x = Char.ofNat (if x < 10 then 48 + x else 55 + x) := by
+  unfold hexU; split <;> rfl
+
+theorem hex_roundtrip (x : Nat) (hx : x < 16) : hexVal (hexU x) = some x := by
+  unfold hexU hexVal
+  by_cases h : x < 10
+  · simp only [h, if_true, toNat_ofNat_small (48 + x) (by omega)]
+    have h1 : 48 ≤ 48 + x ∧ 48 + x ≤ 57 := by omega
+    simp [h1]
+  · simp only [h, if_false, toNat_ofNat_small (55 + x) (by omega)]
+    have h1 : ¬ (48 ≤ 55 + x ∧ 55 + x ≤ 57) := by omega
+    have h2 : 65 ≤ 55 + x ∧ 55 + x ≤ 70 := by omega
+    simp [h1, h2]
 
 theorem decode_quoteByte (safe : List Nat) (hs : SafeOK safe) (b : Nat) (hb : b < 256) (rest : List Char) :
     percentDecode (quoteByte safe b ++ rest) = b :: percentDecode rest := by
   unfold quoteByte
   by_cases hc : safe.contains b = true
   · obtain ⟨h1, h2⟩ := hs b (List.contains_iff_mem.mp hc)
-    simp [hc, percentDecode, h1, h2]
-  · have hx := hex_roundtrip (b / 16) (List.mem_range.mpr (by omega))
-    have hy := hex_roundtrip (b % 16) (List.mem_range.mpr (by omega))
+    have ht := toNat_ofNat_small b (by omega)
+    have hne : Char.ofNat b ≠ '%' := by
+      intro h
+      have : (Char.ofNat b).toNat = ('%' : Char).toNat := by rw [h]
+      rw [ht] at this
+      exact h2 this
+    simp only [hc, if_true, List.cons_append, List.nil_append, percentDecode_cons_ne _ _ hne, ht]
+  · have hx := hex_roundtrip (b / 16) (by omega)
+    have hy := hex_roundtrip (b % 16) (by omega)
     simp only [hc, Bool.false_eq_true, if_false, List.cons_append, List.nil_append, percentDecode, if_true, hx, hy]
     congr 1
     omega
@@ -142,7 +173,7 @@ theorem decode_quote (safe : List Nat) (hs : SafeOK safe) : ∀ (bs : List Nat),
     percentDecode (bs.flatMap (quoteByte safe)) = bs
   | [], _ => rfl
   | b :: bs, hb => by
-    rw [List.flatMap_cons, decode_quoteByte safe hs b (hb b (List.mem_cons_self ..))]
+    rw [List.flatMap_cons, decode_quoteByte safe hs b (hb b List.mem_cons_self)]
     rw [decode_quote safe hs bs (fun x hx => hb x (List.mem_cons_of_mem _ hx))]
 
 /-- **urlEncode_reversible.** For both safe sets the code passes to `urllib.parse.quote` (`"':/&+"` for `urlEncode`, `"'"`
@@ -163,22 +194,27 @@ theorem urlEncode_call (s : String) (h : Heap) :
     lib "urlEncodeComponent" [.str s] h = (.ok (mkStr (pyQuote (safeBytes "'") (chars s))), h) := ⟨rfl, rfl⟩
 
 /-- encoded text is ASCII: only always-safe / safe characters, `%` and upper-case hex digits -/
-theorem quoteByte_ascii (safe : List Nat) (hs : ∀ b ∈ safe, b < 128) (b : Nat) (hb : b < 256) :
+theorem quoteByte_ascii (safe : List Nat) (hs : SafeOK safe) (b : Nat) (hb : b < 256) :
     ∀ c ∈ quoteByte safe b, c.toNat < 128 := by
   intro c hc
   unfold quoteByte at hc
   by_cases hcs : safe.contains b = true
-  · have hlt := hs b (List.contains_iff_mem.mp hcs)
+  · have hlt := (hs b (List.contains_iff_mem.mp hcs)).1
     simp only [hcs, if_true, List.mem_singleton] at hc
     subst hc
-    have : ∀ n ∈ List.range 128, (Char.ofNat n).toNat < 128 := by decide
-    exact this b (List.mem_range.mpr hlt)
+    rw [toNat_ofNat_small b (by omega)]
+    exact hlt
   · simp only [hcs, Bool.false_eq_true, if_false, List.mem_cons, List.not_mem_nil, or_false] at hc
-    have hh : ∀ n ∈ List.range 16, (hexU n).toNat < 128 := by decide
+    have hh : ∀ n, n < 16 → (hexU n).toNat < 128 := by
+      intro n hn
+      unfold hexU
+      split
+      · rw [toNat_ofNat_small _ (by omega)]; omega
+      · rw [toNat_ofNat_small _ (by omega)]; omega
     rcases hc with rfl | rfl | rfl
     · decide
-    · exact hh _ (List.mem_range.mpr (by omega))
-    · exact hh _ (List.mem_range.mpr (by omega))
+    · exact hh _ (by omega)
+    · exact hh _ (by omega)
 
 /-! ### non-vacuity -/
 
